@@ -119,6 +119,9 @@ class SCF(BaseObject):
             self._atoms = copy.deepcopy(value.build())
         else:
             self._atoms = copy.deepcopy(value)
+        # The pseudopotential data and the local potential depend on the atoms, update them
+        if hasattr(self, "_pot"):
+            self._update_pot()
 
     @property
     def xc(self):
@@ -132,6 +135,9 @@ class SCF(BaseObject):
         self._xc_type = parse_xc_type(self._xc)
         if "mock_xc" in self._xc and "_xc_" not in "".join(self._xc).lower():
             self._log.warning("Usage of mock functional detected.")
+        # The default GTH pseudopotential family depends on the functional type, update it
+        if hasattr(self, "_pot"):
+            self._update_pot()
 
     @property
     def xc_params(self):
@@ -147,6 +153,14 @@ class SCF(BaseObject):
             if len(not_used) > 0:
                 self._log.warning(f"Some xc_params are unused, namely: {', '.join(not_used)}.")
         self._xc_params = value
+
+    def _update_pot(self):
+        """Recalculate the potential for the current atoms and functional."""
+        # Keep a user-given pseudopotential path, otherwise let the setter choose the GTH family
+        if self._pot == "gth" and self._psp not in ("pade", "pbe"):
+            self.pot = self._psp
+        else:
+            self.pot = self._pot
 
     @property
     def pot(self):
@@ -385,7 +399,7 @@ class SCF(BaseObject):
             self.W is not None and len(self.W) != self.atoms.kpts.Nk
         ):
             self.atoms.build()
-            self.pot = self.pot
+            self._update_pot()
             self.is_converged = False
 
         # Build the initial wave function if there is no W to start from
@@ -526,7 +540,7 @@ class SCF(BaseObject):
             n = xp.real(atoms.I(TJn))
 
         # Recalculate the potential since it depends on the structure factor
-        self.pot = self.pot
+        self._update_pot()
         # Clear intermediate results to make sure no one uses the unshifted results
         self.clear()
         # Set the shifted density after calling the clearing function
